@@ -1,6 +1,6 @@
-import NbioVerif.Model.Pipeline
-/-! C10 (a): invariant of the per-connection pipeline and the facts about `W` / `answered` it needs -/
-namespace Pipeline
+import NbioVerif.Model.PipelineProposed
+/-! PROPOSED PATCH ONLY — see Model/PipelineProposed.lean.  C10 (a): invariant of the per-connection pipeline and the facts about `W` / `answered` it needs -/
+namespace PipelineProposed
 variable {α : Type}
 
 /-! ### W: concatenated responses of a prefix of the requests -/
@@ -90,37 +90,47 @@ structure Inv (cfg : Cfg α) (s : St α) : Prop where
   acc_eq   : (s.closed = false ∨ cfg.sync = true) → s.fin + s.queue.length = s.next
   cur_some : ∀ rem, s.cur = some rem → s.queue ≠ [] ∧ ∃ r pre, cfg.reqs[s.fin]? = some r ∧
                r.pieces = pre ++ rem ∧
-               (s.closed = false → s.wire ++ s.pending = W cfg.reqs s.fin ++ pre.flatten)
-  cur_none : s.cur = none → s.closed = false → s.wire ++ s.pending = W cfg.reqs s.fin
-  no_close : s.closed = false → noCloseBefore cfg.reqs s.fin
-  pend     : s.closed = true → s.pending = []
+               (s.shut = false → s.wire ++ s.pending = W cfg.reqs s.fin ++ pre.flatten)
+  cur_none : s.cur = none → s.shut = false → s.wire ++ s.pending = W cfg.reqs s.fin
+  no_close : s.shut = false → noCloseBefore cfg.reqs s.fin
+  pend     : s.closed = true → s.pending = [] ∧ s.draining = false
+  drain    : s.draining = true → s.pending ≠ [] ∧ willClose cfg = true ∧
+               answered cfg.reqs ≤ s.fin ∧ s.wire ++ s.pending = ideal cfg
   pre      : s.closed = true → s.wire <+: ideal cfg
   by_srv   : s.byServer = true → s.closed = true ∧ willClose cfg = true ∧
-               answered cfg.reqs ≤ s.fin ∧ (s.dropped = false → s.wire = ideal cfg)
+               answered cfg.reqs ≤ s.fin ∧ s.wire = ideal cfg
   why      : s.closed = true → s.byServer = true ∨ s.ext = true
+  drop_ext : s.dropped = true → s.ext = true
   handled  : s.handled = List.range (s.fin + (if s.cur.isSome then 1 else 0))
 
 theorem inv_init (cfg : Cfg α) : Inv cfg (init : St α) := by
-  constructor <;> simp [init, W_zero, noCloseBefore]
+  constructor <;> simp [init, St.shut, W_zero, noCloseBefore]
+
+theorem shut_false {s : St α} (h : s.shut = false) : s.closed = false ∧ s.draining = false := by
+  simpa [St.shut] using h
 
 /-- taken ++ queued is a prefix of the ideal stream while the connection is open -/
 theorem total_prefix_of_inv {cfg : Cfg α} {s : St α} (h : Inv cfg s) (hc : s.closed = false) :
     s.wire ++ s.pending <+: ideal cfg := by
-  have hn := h.no_close hc
-  cases hcur : s.cur with
-  | none =>
-    rw [h.cur_none hcur hc]
-    apply W_prefix
-    apply answered_ge _ _ hn
-    have := h.acc_le; have := h.next_le; omega
-  | some rem =>
-    obtain ⟨_, r, pre, hr, hp, hw⟩ := h.cur_some rem hcur
-    rw [hw hc]
-    have h1 : W cfg.reqs s.fin ++ pre.flatten <+: W cfg.reqs (s.fin + 1) := by
-      rw [W_succ _ _ r hr]
-      refine ⟨rem.flatten, ?_⟩
-      simp [Req.resp, hp]
-    exact h1.trans (W_prefix _ (answered_gt _ _ r hn hr))
+  cases hd : s.draining with
+  | true => rw [(h.drain hd).2.2.2]; exact List.prefix_refl _
+  | false =>
+    have hs : s.shut = false := by simp [St.shut, hc, hd]
+    have hn := h.no_close hs
+    cases hcur : s.cur with
+    | none =>
+      rw [h.cur_none hcur hs]
+      apply W_prefix
+      apply answered_ge _ _ hn
+      have := h.acc_le; have := h.next_le; omega
+    | some rem =>
+      obtain ⟨_, r, pre, hr, hp, hw⟩ := h.cur_some rem hcur
+      rw [hw hs]
+      have h1 : W cfg.reqs s.fin ++ pre.flatten <+: W cfg.reqs (s.fin + 1) := by
+        rw [W_succ _ _ r hr]
+        refine ⟨rem.flatten, ?_⟩
+        simp [Req.resp, hp]
+      exact h1.trans (W_prefix _ (answered_gt _ _ r hn hr))
 
 /-- the wire is a prefix of the ideal stream in every state satisfying the invariant -/
 theorem wire_prefix_of_inv {cfg : Cfg α} {s : St α} (h : Inv cfg s) : s.wire <+: ideal cfg := by
@@ -183,7 +193,9 @@ theorem inv_step {cfg : Cfg α} {s s' : St α} (a : Act) (h : Inv cfg s) (hs : s
             simp only [Option.some.injEq] at hrem
             subst hrem
             refine ⟨by simp [hq], r, [], hr, by simp, ?_⟩
-            intro hc; simp [h.cur_none hcur hc]
+            intro hc
+            have := h.cur_none hcur hc
+            simpa using this
           cur_none := by intro hh; simp at hh
           handled := by
             have := h.handled
@@ -200,19 +212,24 @@ theorem inv_step {cfg : Cfg α} {s s' : St α} (a : Act) (h : Inv cfg s) (hs : s
       have hhandled : s.handled = List.range (s.fin + 1) := by
         have := h.handled; simp only [hcur] at this; simpa using this
       split at hs
-      · -- closed: the write fails
+      · -- closed or closing: the write fails
         rename_i hc
+        have hsh : s.shut = true := hc
         cases hs
         exact { h with
           cur_some := by
             intro rem hrem
             simp only [Option.some.injEq] at hrem
             subst hrem
-            exact ⟨hq, r, pre ++ [p], hr, by simp [hp], by intro hh; rw [hc] at hh; cases hh⟩
+            refine ⟨hq, r, pre ++ [p], hr, by simp [hp], ?_⟩
+            intro hh
+            have : s.shut = false := hh
+            rw [hsh] at this; cases this
           cur_none := by intro hh; simp at hh
           handled := by simpa using hhandled }
       · rename_i hc
-        have hc' : s.closed = false := by simpa using hc
+        have hsh : s.shut = false := by simpa [St.shut] using hc
+        obtain ⟨hcl, hdr⟩ := shut_false hsh
         split at hs
         · -- empty write list: the kernel takes a part, the rest is queued
           rename_i hpe
@@ -225,16 +242,17 @@ theorem inv_step {cfg : Cfg α} {s s' : St α} (a : Act) (h : Inv cfg s) (hs : s
               subst hrem
               refine ⟨hq, r, pre ++ [p], hr, by simp [hp], ?_⟩
               intro _
-              have := hw hc'
+              have := hw hsh
               rw [hpe', List.append_nil] at this
               simp only [List.append_assoc, List.take_append_drop, this]
               simp
             cur_none := by intro hh; simp at hh
-            pend := by intro hh; have : s.closed = true := hh; rw [hc'] at this; cases this
-            pre := by intro hh; have : s.closed = true := hh; rw [hc'] at this; cases this
+            pend := by intro hh; have : s.closed = true := hh; rw [hcl] at this; cases this
+            drain := by intro hh; have : s.draining = true := hh; rw [hdr] at this; cases this
+            pre := by intro hh; have : s.closed = true := hh; rw [hcl] at this; cases this
             by_srv := by
               intro hb
-              have := (h.by_srv hb).1; rw [hc'] at this; cases this
+              have := (h.by_srv hb).1; rw [hcl] at this; cases this
             handled := by simpa using hhandled }
         · -- behind a backlog: queued whole
           cases hs
@@ -245,11 +263,12 @@ theorem inv_step {cfg : Cfg α} {s s' : St α} (a : Act) (h : Inv cfg s) (hs : s
               subst hrem
               refine ⟨hq, r, pre ++ [p], hr, by simp [hp], ?_⟩
               intro _
-              have := hw hc'
+              have := hw hsh
               simp only [← List.append_assoc, this]
               simp
             cur_none := by intro hh; simp at hh
-            pend := by intro hh; have : s.closed = true := hh; rw [hc'] at this; cases this
+            pend := by intro hh; have : s.closed = true := hh; rw [hcl] at this; cases this
+            drain := by intro hh; have : s.draining = true := hh; rw [hdr] at this; cases this
             handled := by simpa using hhandled }
     · cases hs
   | flush k =>
@@ -257,101 +276,166 @@ theorem inv_step {cfg : Cfg α} {s s' : St α} (a : Act) (h : Inv cfg s) (hs : s
     split at hs
     · rename_i hg
       simp only [Bool.and_eq_true, Bool.not_eq_true', decide_eq_true_eq] at hg
-      obtain ⟨⟨hc, _⟩, _⟩ := hg
-      cases hs
-      have hkeep : s.wire ++ List.take k s.pending ++ List.drop k s.pending = s.wire ++ s.pending := by
-        rw [List.append_assoc, List.take_append_drop]
-      exact { h with
-        cur_some := by
-          intro rem hrem
-          obtain ⟨h1, r, pre, h2, h3, h4⟩ := h.cur_some rem hrem
-          exact ⟨h1, r, pre, h2, h3, by intro hh; simp only; rw [hkeep]; exact h4 hh⟩
-        cur_none := by intro h1 h2; simp only; rw [hkeep]; exact h.cur_none h1 h2
-        pend := by intro hh; have : s.closed = true := hh; rw [hc] at this; cases this
-        pre := by intro hh; have : s.closed = true := hh; rw [hc] at this; cases this
-        by_srv := by
-          intro hb
-          have := (h.by_srv hb).1; rw [hc] at this; cases this }
+      obtain ⟨⟨hc, hne⟩, _⟩ := hg
+      split at hs
+      · -- the flush empties the list of a connection that is waiting to close: it closes
+        rename_i hfin
+        simp only [Bool.and_eq_true, List.isEmpty_iff] at hfin
+        obtain ⟨_, hdr⟩ := hfin
+        obtain ⟨_, hwc, hans, htot⟩ := h.drain hdr
+        cases hs
+        exact { h with
+          acc_eq := by
+            intro hh; simp only at hh
+            rcases hh with hh | hh
+            · cases hh
+            · exact h.acc_eq (Or.inr hh)
+          cur_some := by
+            intro rem hrem
+            obtain ⟨h1, r, pre, h2, h3, _⟩ := h.cur_some rem hrem
+            exact ⟨h1, r, pre, h2, h3, by intro hh; simp [St.shut] at hh⟩
+          cur_none := by intro _ hh; simp [St.shut] at hh
+          no_close := by intro hh; simp [St.shut] at hh
+          pend := fun _ => ⟨rfl, rfl⟩
+          drain := by intro hh; cases hh
+          pre := by intro _; simp only; rw [htot]; exact List.prefix_refl _
+          by_srv := fun _ => ⟨rfl, hwc, hans, htot⟩
+          why := fun _ => Or.inl rfl }
+      · rename_i hfin
+        cases hs
+        have hkeep : s.wire ++ List.take k s.pending ++ List.drop k s.pending = s.wire ++ s.pending := by
+          rw [List.append_assoc, List.take_append_drop]
+        have hshut : ∀ (w p : List α), ({ s with wire := w, pending := p } : St α).shut = s.shut := by
+          intro w p; rfl
+        exact { h with
+          cur_some := by
+            intro rem hrem
+            obtain ⟨h1, r, pre, h2, h3, h4⟩ := h.cur_some rem hrem
+            exact ⟨h1, r, pre, h2, h3, by intro hh; simp only; rw [hkeep]; exact h4 hh⟩
+          cur_none := by intro h1 h2; simp only; rw [hkeep]; exact h.cur_none h1 h2
+          pend := by intro hh; have : s.closed = true := hh; rw [hc] at this; cases this
+          drain := by
+            intro hh
+            have hdr : s.draining = true := hh
+            obtain ⟨_, h2, h3, h4⟩ := h.drain hdr
+            refine ⟨?_, h2, h3, by simp only; rw [hkeep]; exact h4⟩
+            simp only
+            intro hemp
+            apply hfin
+            simp [hemp, hdr]
+          pre := by intro hh; have : s.closed = true := hh; rw [hc] at this; cases this
+          by_srv := by
+            intro hb
+            have := (h.by_srv hb).1; rw [hc] at this; cases this }
     · cases hs
   | finish =>
     simp only [step] at hs
     split at hs
     · rename_i k q hcur hq
-      cases hs
       obtain ⟨hk, hqt⟩ := head_of_range' h.q_range hq
       subst hk
       obtain ⟨_, r, pre, hr, hp, hw⟩ := h.cur_some _ hcur
       simp only [List.append_nil] at hp
       have hlen : s.queue.length = q.length + 1 := by rw [hq]; simp
-      have htot : s.closed = false → s.wire ++ s.pending = W cfg.reqs (s.fin + 1) := by
+      have htot : s.shut = false → s.wire ++ s.pending = W cfg.reqs (s.fin + 1) := by
         intro hc; rw [hw hc, W_succ _ _ r hr, Req.resp, hp]
-      simp only [hr]
-      refine
-        { q_range := hqt
-          acc_le := by have := h.acc_le; simp only; omega
-          next_le := h.next_le
-          acc_eq := ?_, cur_some := by intro rem hh; simp at hh
-          cur_none := ?_, no_close := ?_, pend := ?_, pre := ?_, by_srv := ?_, why := ?_
-          handled := by have := h.handled; simp only [hcur] at this; simpa using this }
-      · intro hh
-        have : s.closed = false ∨ cfg.sync = true := by
-          rcases hh with hh | hh
-          · left; simp only [Bool.or_eq_false_iff] at hh; exact hh.1
-          · right; exact hh
-        have := h.acc_eq this; simp only; omega
-      · intro _ hc
-        simp only [Bool.or_eq_false_iff] at hc
-        simp only [hc.1, hc.2]
-        simpa using htot hc.1
-      · intro hc
-        simp only [Bool.or_eq_false_iff] at hc
-        intro k r' hk hr'
-        have hk' : k < s.fin + 1 := hk
-        by_cases hkf : k = s.fin
-        · subst hkf; rw [hr] at hr'; cases hr'; exact hc.2
-        · exact h.no_close hc.1 k r' (by omega) hr'
-      · intro hc
-        cases hcl : s.closed with
-        | true => simp [h.pend hcl]
-        | false =>
-          simp only [hcl, Bool.false_or] at hc
-          simp [hc]
-      · intro hc
-        cases hcl : s.closed with
-        | true => exact h.pre hcl
-        | false =>
-          simp only [hcl, Bool.false_or] at hc
-          simp only [ideal]
-          rw [answered_eq _ _ r (h.no_close hcl) hr hc, ← htot hcl]
-          exact List.prefix_append _ _
-      · intro hb
-        simp only [Bool.or_eq_true, Bool.and_eq_true, Bool.not_eq_true'] at hb
-        rcases hb with hb | ⟨hc, hcl⟩
-        · obtain ⟨h1, h2, h3, h4⟩ := h.by_srv hb
-          refine ⟨by simp [h1], h2, by simp only; omega, ?_⟩
-          intro hd
-          have hd' : s.dropped = false := by
-            cases hdd : s.dropped with
-            | false => rfl
-            | true => simp [hdd] at hd
-          exact h4 hd'
-        · refine ⟨by simp [hc], any_close_of_get _ _ r hr hc, ?_, ?_⟩
-          · simp only; rw [answered_eq _ _ r (h.no_close hcl) hr hc]; exact Nat.le_refl _
-          · intro hd
-            simp only [hc, hcl, Bool.not_false, Bool.and_self, Bool.true_and, Bool.or_eq_false_iff,
-              Bool.not_eq_false'] at hd
-            have hpe : s.pending = [] := by simpa using hd.2
-            simp only [ideal]
-            rw [answered_eq _ _ r (h.no_close hcl) hr hc, ← htot hcl, hpe, List.append_nil]
-      · intro hc
-        cases hcl : s.closed with
-        | true =>
-          rcases h.why hcl with hb | he
-          · left; simp [hb]
-          · right; exact he
-        | false =>
-          simp only [hcl, Bool.false_or] at hc
-          left; simp [hc]
+      have hhandled : s.handled = List.range (s.fin + 1) := by
+        have := h.handled; simp only [hcur] at this; simpa using this
+      simp only [hr] at hs
+      split at hs
+      · -- the close decision is acted on
+        rename_i hcl
+        simp only [Bool.and_eq_true, Bool.not_eq_true'] at hcl
+        obtain ⟨⟨hrc, hc⟩, hdr⟩ := hcl
+        have hsh : s.shut = false := by simp [St.shut, hc, hdr]
+        have hans : answered cfg.reqs = s.fin + 1 := answered_eq _ _ r (h.no_close hsh) hr hrc
+        have hwc : willClose cfg = true := any_close_of_get _ _ r hr hrc
+        have hid : s.wire ++ s.pending = ideal cfg := by rw [htot hsh, ideal, hans]
+        split at hs
+        · -- nothing queued: closed now
+          rename_i hpe
+          have hpe' : s.pending = [] := by simpa using hpe
+          cases hs
+          have hwire : s.wire = ideal cfg := by rw [← hid, hpe', List.append_nil]
+          exact
+            { q_range := hqt
+              acc_le := by have := h.acc_le; simp only; omega
+              next_le := h.next_le
+              acc_eq := by
+                intro hh; simp only at hh
+                rcases hh with hh | hh
+                · cases hh
+                · have := h.acc_eq (Or.inr hh); simp only; omega
+              cur_some := by intro rem hh; simp at hh
+              cur_none := by intro _ hh; simp [St.shut] at hh
+              no_close := by intro hh; simp [St.shut] at hh
+              pend := fun _ => ⟨hpe', hdr⟩
+              drain := by intro hh; have : s.draining = true := hh; rw [hdr] at this; cases this
+              pre := by intro _; simp only; rw [hwire]; exact List.prefix_refl _
+              by_srv := fun _ => ⟨rfl, hwc, by simp only; omega, hwire⟩
+              why := fun _ => Or.inl rfl
+              drop_ext := h.drop_ext
+              handled := by simpa using hhandled }
+        · -- a backlog: the connection waits for the flush
+          rename_i hpe
+          cases hs
+          exact
+            { q_range := hqt
+              acc_le := by have := h.acc_le; simp only; omega
+              next_le := h.next_le
+              acc_eq := by intro hh; have := h.acc_eq hh; simp only; omega
+              cur_some := by intro rem hh; simp at hh
+              cur_none := by intro _ hh; simp [St.shut] at hh
+              no_close := by intro hh; simp [St.shut] at hh
+              pend := by intro hh; have : s.closed = true := hh; rw [hc] at this; cases this
+              drain := fun _ => ⟨by simpa using hpe, hwc, by simp only; omega, hid⟩
+              pre := by intro hh; have : s.closed = true := hh; rw [hc] at this; cases this
+              by_srv := by
+                intro hb
+                have := (h.by_srv hb).1; rw [hc] at this; cases this
+              why := by intro hh; have : s.closed = true := hh; rw [hc] at this; cases this
+              drop_ext := h.drop_ext
+              handled := by simpa using hhandled }
+      · -- no close decision, or already closed / closing
+        rename_i hcl
+        cases hs
+        have hshut : ({ s with cur := none, queue := q, fin := s.fin + 1 } : St α).shut = s.shut := rfl
+        exact
+          { q_range := hqt
+            acc_le := by have := h.acc_le; simp only; omega
+            next_le := h.next_le
+            acc_eq := by intro hh; have := h.acc_eq hh; simp only; omega
+            cur_some := by intro rem hh; simp at hh
+            cur_none := by
+              intro _ hh
+              rw [hshut] at hh
+              simpa using htot hh
+            no_close := by
+              intro hh
+              rw [hshut] at hh
+              obtain ⟨hc, hdr⟩ := shut_false hh
+              have hrc : r.close = false := by
+                cases hrr : r.close with
+                | false => rfl
+                | true => exact absurd (by simp [hrr, hc, hdr]) hcl
+              intro k r' hk hr'
+              have hk' : k < s.fin + 1 := hk
+              by_cases hkf : k = s.fin
+              · subst hkf; rw [hr] at hr'; cases hr'; exact hrc
+              · exact h.no_close hh k r' (by omega) hr'
+            pend := h.pend
+            drain := by
+              intro hh
+              obtain ⟨h1, h2, h3, h4⟩ := h.drain hh
+              exact ⟨h1, h2, by simp only; omega, h4⟩
+            pre := h.pre
+            by_srv := by
+              intro hb
+              obtain ⟨h1, h2, h3, h4⟩ := h.by_srv hb
+              exact ⟨h1, h2, by simp only; omega, h4⟩
+            why := h.why
+            drop_ext := h.drop_ext
+            handled := by simpa using hhandled }
     · cases hs
   | extClose =>
     simp only [step] at hs
@@ -366,19 +450,18 @@ theorem inv_step {cfg : Cfg α} {s s' : St α} (a : Act) (h : Inv cfg s) (hs : s
       cur_some := by
         intro rem hrem
         obtain ⟨h1, r, pre, h2, h3, _⟩ := h.cur_some rem hrem
-        exact ⟨h1, r, pre, h2, h3, by intro hh; cases hh⟩
-      cur_none := by intro _ hh; cases hh
-      no_close := by intro hh; cases hh
-      pend := fun _ => rfl
+        exact ⟨h1, r, pre, h2, h3, by intro hh; simp [St.shut] at hh⟩
+      cur_none := by intro _ hh; simp [St.shut] at hh
+      no_close := by intro hh; simp [St.shut] at hh
+      pend := fun _ => ⟨rfl, rfl⟩
+      drain := by intro hh; cases hh
       pre := fun _ => hpre
       by_srv := by
         intro hb
         obtain ⟨h1, h2, h3, h4⟩ := h.by_srv hb
-        refine ⟨rfl, h2, h3, ?_⟩
-        intro hd
-        simp only [h.pend h1, List.isEmpty_nil, Bool.not_true, Bool.or_false] at hd
-        exact h4 hd
-      why := fun _ => Or.inr rfl }
+        exact ⟨rfl, h2, h3, h4⟩
+      why := fun _ => Or.inr rfl
+      drop_ext := fun _ => rfl }
 
 theorem inv_run {cfg : Cfg α} (acts : List Act) : ∀ {s : St α}, Inv cfg s → Inv cfg (run cfg s acts) := by
   induction acts with
@@ -404,11 +487,14 @@ theorem step_closed {cfg : Cfg α} {s s' : St α} (a : Act) (hs : step cfg s a =
       · cases hs
     · cases hs
   · split at hs
-    · simp only [hc, if_true] at hs; cases hs; exact ⟨rfl, rfl⟩
+    · simp only [hc, Bool.true_or, if_true] at hs; cases hs; exact ⟨rfl, rfl⟩
     · cases hs
   · simp [hc] at hs
   · split at hs
-    · cases hs; simp [hc]
+    · simp only [hc, Bool.not_true, Bool.and_false, Bool.false_and] at hs
+      split at hs
+      · rename_i hx; simp at hx
+      · cases hs; exact ⟨rfl, rfl⟩
     · cases hs
   · cases hs; simp
 
@@ -429,104 +515,11 @@ theorem step_ext {cfg : Cfg α} {s s' : St α} (a : Act) (hs : step cfg s a = so
       · split at hs <;> cases hs <;> rfl
     · cases hs
   · split at hs
-    · cases hs; rfl
+    · split at hs <;> cases hs <;> rfl
     · cases hs
   · split at hs
-    · cases hs; rfl
+    · (repeat' split at hs) <;> (cases hs; rfl)
     · cases hs
   · exact absurd rfl ha
 
-/-- `dropped` is only ever set by a step that closes (or on an already closed connection) -/
-theorem step_dropped {cfg : Cfg α} {s s' : St α} (a : Act) (hs : step cfg s a = some s')
-    (h : s.dropped = true → s.closed = true) : s'.dropped = true → s'.closed = true := by
-  cases a with
-  | parse =>
-    simp only [step] at hs
-    split at hs
-    · split at hs <;> cases hs <;> exact h
-    · cases hs
-  | start =>
-    simp only [step] at hs
-    split at hs
-    · split at hs
-      · cases hs; exact h
-      · cases hs
-    · cases hs
-  | write k =>
-    simp only [step] at hs
-    split at hs
-    · split at hs
-      · cases hs; exact h
-      · split at hs <;> cases hs <;> exact h
-    · cases hs
-  | flush k =>
-    simp only [step] at hs
-    split at hs
-    · cases hs; exact h
-    · cases hs
-  | finish =>
-    simp only [step] at hs
-    split at hs
-    · cases hs
-      intro hd
-      simp only [Bool.or_eq_true, Bool.and_eq_true] at hd ⊢
-      rcases hd with hd | ⟨⟨hc, _⟩, _⟩
-      · left; exact h hd
-      · right; exact hc
-    · cases hs
-  | extClose =>
-    simp only [step] at hs
-    cases hs; intro _; rfl
-
-theorem run_dropped {cfg : Cfg α} (acts : List Act) : ∀ (s : St α), (s.dropped = true → s.closed = true) →
-    (run cfg s acts).dropped = true → (run cfg s acts).closed = true := by
-  induction acts with
-  | nil => intro s h; exact h
-  | cons a as ih =>
-    intro s h
-    simp only [run]
-    split
-    · rename_i s' hs; exact ih s' (step_dropped a hs h)
-    · exact ih s h
-
-/-- the kernel takes every write in full: no backlog ever forms, so no close can drop anything -/
-theorem step_full {cfg : Cfg α} {s s' : St α} (a : Act) (hs : step cfg s a = some s')
-    (ha : ∀ k, a ≠ .write (some k)) (hp : s.pending = []) (hd : s.dropped = false) :
-    s'.pending = [] ∧ s'.dropped = false := by
-  cases a with
-  | parse =>
-    simp only [step] at hs
-    split at hs
-    · split at hs <;> cases hs <;> exact ⟨hp, hd⟩
-    · cases hs
-  | start =>
-    simp only [step] at hs
-    split at hs
-    · split at hs
-      · cases hs; exact ⟨hp, hd⟩
-      · cases hs
-    · cases hs
-  | write k =>
-    cases k with
-    | some k => exact absurd rfl (ha k)
-    | none =>
-      simp only [step] at hs
-      split at hs
-      · split at hs
-        · cases hs; exact ⟨hp, hd⟩
-        · split at hs
-          · cases hs; simp [hd]
-          · rename_i hne; simp [hp] at hne
-      · cases hs
-  | flush k =>
-    simp [step, hp] at hs
-  | finish =>
-    simp only [step] at hs
-    split at hs
-    · cases hs; simp [hp, hd]
-    · cases hs
-  | extClose =>
-    simp only [step] at hs
-    cases hs; simp [hp, hd]
-
-end Pipeline
+end PipelineProposed
